@@ -25,6 +25,7 @@ func c19Ops[V univers.Version[V], VR univers.VersionRange[V]](e univers.Ecosyste
 	vv.Assume(eb == nil)
 	vr, er := e.NewVersionRange(r)
 	vv.Assume(er == nil)
+	vv.Reached()
 	vv.Epoch()
 	vv.Concurrently(func() {
 		x := va.Compare(vb)
